@@ -203,4 +203,38 @@ Section LTS.
   Proof.
     intros Hc Hst Hcan. destruct Hst; cbn in *; try reflexivity. discriminate.
   Qed.
+
+  (** * Progress: the only way to get stuck before returning
+      Every reachable configuration can move, has returned, or is the one situation the code
+      excludes by construction: the lexer waits for a here-document redirection while the
+      parser waits for a token (the parser pushes the redirection while it processes the
+      delimiter word, i.e. before the lexer can reach the newline that triggers the wait). *)
+  Definition heredoc_standoff (c : cfg) : Prop :=
+    exists k s, cL c = LRun (LPop k) /\ cP c = PWant s /\ queue c = [] /\ cancel c = false.
+
+  Theorem progress c :
+    Inv c -> (exists c', step c c') \/ (exists r, cP c = PRet r) \/ heredoc_standoff c.
+  Proof.
+    intros HI. destruct c as [l p cc sl q lg ph n]. unfold Inv in HI; cbn in HI.
+    destruct p as [s|s t|r|r].
+    - (* parser waits for a token *)
+      destruct l as [[t k|k|e|]|].
+      + destruct cc; [left; eexists; apply s_bail|left; eexists; apply s_recv].
+      + destruct q as [|h q]; [|left; eexists; apply s_pop].
+        destruct cc; [left; eexists; apply s_pop_cancel|].
+        right. right. exists k, s. cbn. auto.
+      + left. eexists. apply s_fail.
+      + left. eexists. apply s_end.
+      + destruct (peof s) eqn:E; left; eexists; [eapply s_eof_ok|eapply s_eof_err]; eassumption.
+    - destruct (p_next (pfeed s t)) eqn:E; left; eexists; [eapply s_proc_ok|eapply s_proc_err]; eassumption.
+    - destruct cc.
+      + destruct l as [[t k|k|e|]|].
+        * left. eexists. apply s_bail.
+        * destruct q as [|h q]; left; eexists; [apply s_pop_cancel|apply s_pop].
+        * left. eexists. apply s_fail.
+        * left. eexists. apply s_end.
+        * left. eexists. apply s_ret.
+      + left. eexists. apply s_cancel.
+    - right. left. exists r. reflexivity.
+  Qed.
 End LTS.
